@@ -66,9 +66,13 @@ def _run_model_one(drv, case):
         m = su.model_2d(drv, case, su.programs(case)[0], 0.5)
         m["is2D"] = True
         return m
+    mi = su.model_init(case)
+    if mi is not None:
+        return mi
     rec = su.record_inputs(case)
     if rec.get("raise"):
-        return {"raise": rec["raise"], "stage": "init"}
+        # the rule says this case constructs; the model cannot echo the implementation
+        return {"raise": None, "stage": "init", "no_constants": rec["raise"]}
     prog = su.programs(case)[0]
     out = {}
     for tag, old in (("new", False), ("old", True)):
@@ -108,8 +112,9 @@ def _cmp_one(case, impl, m):
 def _compare_one(case, impl, model):
     if model is None:
         return []
-    if impl.get("raise"):
-        return [] if impl["raise"] == model.get("raise") else [f"init exception: impl {impl['raise']}"]
+    if impl.get("raise") or model.get("stage") == "init":
+        return [] if (impl.get("raise") or None) == (model.get("raise") or None) else \
+            [f"init exception: impl {impl.get('raise')} vs rule {model.get('raise')}"]
     if model.get("is2D"):
         return su.compare_2d(case, impl["runs"][0], model, arrays=False)
     d_new = _cmp_one(case, impl, model["new"])
@@ -178,6 +183,9 @@ def _predicates_one(case, impl):
         return out
     minT, i_end = _min_by_step(case, impl, run)
     if len(minT) != i_end + 1:
+        out.append(Failure(clause="cn_trigger_first", key=f"cooling_rows_missing|{site}|",
+                           detail=f"t_nuc = {res['t_nuc']} min is step {i_end} but only {len(minT)} cooling rows were "
+                                  f"recorded (every step should be): the trigger clauses cannot be evaluated"))
         return out
     if minT[i_end] > cn + tol:
         out.append(Failure(clause="cn_trigger_first", key=f"cn_trigger_first|{site}|fires-before-reaching-cnTemp",
@@ -194,7 +202,21 @@ def _predicates_one(case, impl):
         out.append(Failure(clause="cn_Tnuc_close", key=f"cn_Tnuc_close|{site}|",
                            detail=f"reported nucleation temperature {tnuc} C is not within one step's cooling "
                                   f"({maxdrop} K) below cnTemp = {cn} C"))
-    if not close(tnuc, float(minT[i_end]), rtol=1e-9):
+    if dim == "0D":
+        # the 0D history does not contain the temperature of the trigger step itself (it is `T_nuc`): re-derive it
+        # from the last recorded temperature by the lumped step T + dt A K (T_shelf - T)/(cp m), with the programmed
+        # shelf temperature of that step
+        c = impl["const"]
+        prof = su.programmed_profile(su.programs(case)[0] if len(su.programs(case)) == 1 else
+                                     {k: case[k] for k in ("t_tot", "start", "stop", "rate", "holds", "cnTemp")}, dt)
+        prev = (case["start"] if i_end == 0 else run["snap"]["temp"][i_end - 1]) + 273.15
+        if i_end < len(prof):
+            exp = prev + dt * (c["A"] * case["k_s0"] * (prof[i_end] + 273.15 - prev)) / (c["cp_solution"] * c["mass"]) - 273.15
+            if not close(tnuc, exp, rtol=1e-9):
+                out.append(Failure(clause="cn_Tnuc_close", key=f"Tnuc_is_field_min|{site}|",
+                                   detail=f"reported T_nuc {tnuc} but one cooling step from the last recorded temperature "
+                                          f"{prev - 273.15} gives {exp}"))
+    elif not close(tnuc, float(minT[i_end]), rtol=1e-9):
         out.append(Failure(clause="cn_Tnuc_close", key=f"Tnuc_is_field_min|{site}|",
                            detail=f"reported {tnuc} vs coldest point of the recorded field {minT[i_end]}"))
     return out
@@ -237,7 +259,7 @@ def compare(case, impl, model):
 
 
 def predicates(case, impl):
-    out = []
+    out = su.init_failures(case, impl, Failure)
     for k, (ck, ik) in enumerate(_views(case, impl)):
         if ik.get("runs") and "snap" not in ik["runs"][0]:
             continue
@@ -342,6 +364,8 @@ def special_cases(tier):
               Frand=None)
     out.append(dict(p2, config="shelf", cnTemp=-5.0, yaml={"solution": {"T_eq": 3.8}}))
     out.append(dict(p2, config="VISF", cnTemp=0.0, yaml=_visf_early(0)))
+    jc = su.jacket_case()
+    out.append(dict(jc, cnTemp=-5.0, Frand=None, kind="2D-jacket-cn"))
     if tier != "quick":
         out.append(dict(p2, config="shelf", cnTemp=0, yaml={"solution": {"T_eq": -2.0}}))
         out.append(dict(p2, config="VISF", cnTemp=-8.0, yaml=_visf_early(0)))
